@@ -324,6 +324,14 @@ func (r *NRun) candidate(st NStep) *MsgSpec {
 		}
 		ref_ := a.ref(TP, h, view, hash)
 		return &MsgSpec{Union: UP, Ref: ref_, Sender: a.signedRef(s, ref_)}
+	case "PL": // PREPARE for an upcoming view, genuinely signed by THAT view's leader, naming the block that leader will propose there
+		view := v + 1 + uint64(st.A%2)
+		leader := w.LeaderIdx(h, view)
+		if !a.owns(leader) {
+			return nil
+		}
+		ref_ := a.ref(TP, h, view, r.freshBlock(fmt.Sprintf("nv%d", view)).Hash())
+		return &MsgSpec{Union: UP, Ref: ref_, Sender: a.signedRef(leader, ref_)}
 	case "C":
 		view := v + uint64(st.A%3)
 		if st.A%5 == 4 && v > 0 {
